@@ -280,6 +280,9 @@ func SelfTest(rng *rand.Rand, cases, maxN int, timeout time.Duration) (agreed, i
 	return
 }
 
+// Debug, when set, receives diagnostic lines (why a window was rejected).
+var Debug func(string)
+
 // StuckState decides a stall without a wall-clock verdict. stuck must be a
 // predicate that, once true, can only become false through progress;
 // progress returns a counter of progress events. The state is confirmed when
@@ -303,8 +306,12 @@ func StuckState(stuck func() bool, progress func() int64, cpu func() time.Durati
 		}
 		samples++
 		if el := time.Since(t0); samples >= 20 && el >= 2*time.Second {
-			if float64(cpu()-c0) <= 0.02*float64(el) {
+			used := cpu() - c0
+			if float64(used) <= 0.02*float64(el) {
 				return true, true
+			}
+			if Debug != nil {
+				Debug(fmt.Sprintf("StuckState: window of %v used %v CPU (not idle)", el, used))
 			}
 			samples, t0, c0 = 0, time.Now(), cpu()
 		}
